@@ -301,6 +301,51 @@ wait:
 			}
 		}
 	}
+	// a definition the profile forbids, sent right after the same field triples
+	// were accepted for a message without profile on the same local type (and
+	// the other way round): each definition is judged on its own
+	{
+		type cand struct {
+			base byte
+			size byte
+		}
+		cands := []cand{{0x85, 4}, {0x86, 4}, {0x84, 2}, {0x83, 2}, {0x02, 1}, {0x01, 1}, {0x8C, 4}, {0x07, 3}, {0x0D, 2}, {0x88, 4}, {0x8E, 8}}
+		for i := 0; i < c.pick(400, 6000); i++ {
+			pm := p.Msgs[rng.Intn(len(p.Msgs))]
+			if len(pm.Fields) == 0 {
+				continue
+			}
+			pf := pm.Fields[rng.Intn(len(pm.Fields))]
+			cd := cands[rng.Intn(len(cands))]
+			arch := byte(rng.Intn(2))
+			l := rng.Intn(16)
+			s := newStream(12, false)
+			s.FileId((l+1)%16, arch, 4)
+			fd := []FieldDef{{byte(pf.N), cd.size, cd.base}}
+			pl := make([]byte, cd.size)
+			rng.Read(pl)
+			first, second := uint16(0xFF00+rng.Intn(8)), uint16(pm.M)
+			if i%4 == 3 {
+				first, second = second, first
+			}
+			s.Def(l, arch, first, fd, nil)
+			s.Data(l, pl)
+			s.Def(l, arch, second, fd, nil)
+			s.Data(l, pl)
+			id++
+			cl := p.runCall(id, "decode", s.Bytes(), plain, CallOpts{UF: i & 1, UM: (i >> 1) & 1}, true)
+			cl.Note = fmt.Sprintf("field %d of message %d declared as base %#x size %d, after the same triple for message %d", pf.N, second, cd.base, cd.size, first)
+			if cl.Ret.Panic == 1 {
+				c.report("panic:"+firstWords(cl.Ret.PanicMsg), fmt.Sprintf("decode panics (%s): %s", cl.Note, cl.Ret.PanicMsg), cl)
+			}
+			if cl.Ret.Hang == 1 {
+				c.report("hang:decode", "decode does not return", cl)
+			}
+			if i%8 == 0 {
+				calls = append(calls, cl)
+			}
+		}
+	}
 	// every file-type value followed by ordinary records (a type the library
 	// refuses must be refused before any record is routed)
 	for t := 0; t < 256; t++ {
